@@ -171,4 +171,18 @@ CHECKS = {
                 'SHA-1/base64 are specified in TLA+ and self-checked against the RFC 6455 example.',
         'technique': 'TLA+ reference codec (WsCodec/Sha1) + TLC batch validation of recorded build/parse executions',
     },
+    'C18': {
+        'text': 'Design model EventBus.tla (one FIFO queue, dispatcher table, per-subscription channels, breakage) checked exhaustively by '
+                'TLC over all interleavings of subscribe, unsubscribe (known / unknown / repeated ids), publish, break and dispatch for '
+                '2 subscribers x 7 operations (quick) and 3 subscribers x 9 operations (thorough, 11.5 M states): ExactlyOnceInOrder, '
+                'NothingLost, DispatcherAlive and the action property BreakIsolated. tlc -simulate behaviours are executed step by step on '
+                'the REAL EventQueue + EventDispatcher with real multiprocessing pipes (break = reader closes its end); TLC (TraceBus) '
+                'requires the state observed after every step (dispatcher table, deliveries per channel, dispatcher alive) to be the '
+                'model\'s successor state, and re-evaluates the design invariants on every trace state.',
+        'design_ref': 'DESIGN.md section 6, C18',
+        'note': 'Trusted: TLC, the kernel pipe semantics (BrokenPipeError on a closed reader). The dispatcher is driven through '
+                'handle_event; EventManager / EventSubscriber threads are not exercised.',
+        'technique': 'TLA+ design model (EventBus) exhaustively checked + TLC-generated histories executed on the real dispatcher with '
+                     'step-wise TLC trace validation (TraceBus)',
+    },
 }
